@@ -544,7 +544,7 @@ Qed.
 Definition ex_contents : contents :=
   {| c_H := 128; c_vocab1 := repeat 7 8; c_vocab2 := repeat 7 8; c_pad := 3; c_search1 := repeat 9 13; c_search2 := repeat 9 13;
      c_words := unk6 ++ [97; 0];
-     c_header := ref_sanity ++ [2; 0; 0; 0; 0; 0; 192; 63; 0; 0; 0; 0; 1; 0; 0; 0; 1; 0; 0; 0] ++ repeat 0 20 |}.
+     c_header := ref_sanity ++ [2; 0; 0; 0; 0; 0; 192; 63; 0; 0; 0; 0; 1; 0; 0; 0; 1; 0; 0; 0] ++ [3; 0; 0; 0; 0; 0; 0; 0; 1; 0; 0; 0; 0; 0; 0; 0] ++ repeat 0 4 |}.
 Definition ex_cfg : loader_cfg := {| l_model_type := 0; l_search_version := 1; l_enumerate := true |}.
 Definition ex_load := load (fun _ => true) (fun _ _ => 24) (fun _ _ => true) ex_cfg.
 
